@@ -170,6 +170,8 @@ class Engine:
             rows = sorted(rng.sample(range(nrows), k))
             return [(well_id(r, c), real_index(d, well_id(r, c))) for r in rows]
         n = n or rng.choice([1, 1, 2, 3, 4, 6])
+        if d["columns"] >= 1000 and rng.random() < 0.6:
+            ids = [x for x in ids if x[1][1] >= 996]  # the far end of the strip (around the step to four digits)
         mode = rng.choice(["random", "random", "repeat", "alias", "block"])
         if mode == "repeat":
             pool = [rng.choice(ids) for _ in range(max(1, n // 2))]
